@@ -51,7 +51,7 @@ type (
 	}
 )
 
-var FormatPattern = regexp.MustCompile(`\A%([\s\[+#0{<(|-]*)([1-9][0-9]*)?(?:\.([0-9]+))?([a-zA-Z])\z`)
+var FormatPattern = regexp.MustCompile(`\A%([ \[+#0{<(|-]*)([1-9][0-9]*)?(?:\.([0-9]+))?([a-zA-Z])\z`)
 
 var DefaultFormat Format
 var DefaultFormatContext FormatContext
